@@ -411,6 +411,7 @@ CHECKS["C17"] = {
     "jobs": [
         {"test": "TestC17Replay", "kind": "plain"},
         {"test": "TestC17", "kind": "rapid", "shards": 8, "checks": (70, 4000), "timeout": (300, 3000), "gomaxprocs": [1, 2, 4, 16]},
+        {"test": "TestC17DefaultRegistration", "kind": "plain", "shards": (1, 4), "timeout": (300, 3000), "gomaxprocs": [16, 8, 16, 4]},
         {"test": "TestC17Ping", "kind": "rapid", "shards": 4, "checks": (25, 600), "timeout": (300, 3000), "gomaxprocs": [4, 16, 2, 8], "shrink": (5, 20)},
         {"test": "TestC17Real", "kind": "rapid", "shards": 4, "checks": (15, 400), "timeout": (300, 3000), "gomaxprocs": [4, 16], "shrink": (20, 60)},
     ],
